@@ -843,7 +843,7 @@ func TestC02_Collection(t *testing.T) {
 		s = sizes{small: [2]int{50, 400}, mid: [2]int{400, 2000}, large: [2]int{2000, 5000}, steps: 60}
 	}
 	flag.Set("rapid.steps", strconv.Itoa(s.steps))
-	ev.Rapid("collection", ev.Pick(900, 4000))
+	ev.Rapid("collection", ev.Pick(900, 3000))
 	rapid.Check(t, func(rt *rapid.T) {
 		m := newMachine(rt, c, &colBackend{}, "collection", "")
 		c.Label("histories")
@@ -863,7 +863,7 @@ func TestC02_Server(t *testing.T) {
 		s.steps = 45
 	}
 	flag.Set("rapid.steps", strconv.Itoa(s.steps))
-	ev.Rapid("server", ev.Pick(450, 3000))
+	ev.Rapid("server", ev.Pick(450, 2000))
 	rapid.Check(t, func(rt *rapid.T) {
 		m := newMachine(rt, c, &srvBackend{c: conn}, "server", "")
 		c.Label("histories")
